@@ -18,6 +18,21 @@ double on both sides, floats travel as bit patterns): lengths and order exact, v
   ellv     make_Ellipsoid(dimension=(a,b,c), vert=N): x, y, z (N*N-2N+2 rows) for N >= 4, ValueError for N <= 3
   circ     traces_core.make_Circle(obj, base) line trace: x, y, z (base rows), base = 0..100
   polyl    traces_core.make_Polyline(obj) line trace: x, y, z (bit-exact)
+Rows of Model/DisplayIdx.lean (`run_idx`; integer data exact, floats as bit patterns):
+  ellidx   make_Ellipsoid(vert=N): i, j, k, every N = 0..40 on every run (ValueError for N <= 3), index range against len(x)
+  segidx   make_CylinderSegment(dimension, vert): N, caps present?, i, j, k for vert = 3..60 x 10 angle ranges on every run
+           (incl. exactly 360, 360 up to rounding, beyond 360, zero and reversed span, r1 = 0) plus random ones
+  arrow    make_Arrow(base=N): i, j, k (N = 0..30);  arrowv: x, y, z (relative 1e-12)
+  mmesh    merge_mesh3d(*traces) on 1-5 random integer traces (different vertex / face counts, empty traces, intensity /
+           facecolor present in all / only the first / missing in the first, extra keys): all fields, KeyError / IndexError kinds
+  mscat    merge_scatter3d(*traces) on 0-5 random integer line traces (mode None / "" / markers / lines / markers+lines /
+           markers+text+lines, None gaps inside the inputs, empty lines): x, y, z with the None separators, mode, other keys; the
+           pieces between the separators; whether the FIRST INPUT dict was modified (counted, it is for an empty mode)
+  path     make_path(obj) + rescale_traces on objects with random paths (length 2-6) and unit factors: bit-exact
+  autounit unit_prefix(x, as_tuple=True)[2] + "m" and get_unit_factor(unit, target_unit="m") for x = 10^k * {0.999, 1, 1.001, 5},
+           k = -27..27 on every run plus random x: unit string (UTF-8 bytes), power, decimal exponent of the factor
+  ranges   get_scene_ranges(*traces, zoom) on random scatter / mesh traces (mesh: only vertices used by a face count), then
+           rmax = amax(abs(ranges)) and the auto unit as get_frames computes them: bit-exact
 """
 import struct
 import warnings
@@ -446,6 +461,349 @@ def run_place(ctx, n, stats):
     stats["distinct"] += len(seen)
 
 
+# ------------------------------------------------------------------------------------------------------------------
+# Model/DisplayIdx.lean rows
+SEG_RANGES = [(0.0, 90.0), (0.0, 360.0), (0.0, 359.9), (10.0, 370.0), (0.1, 360.1), (-180.0, 180.0), (0.0, 720.0), (45.0, 45.0), (90.0, 0.0), (-30.0, 300.0)]
+
+
+def _ijk_real(t):
+    return [_ints(t[c]) for c in "ijk"]
+
+
+def _rint_list(rng, n, lo=-9, hi=9):
+    return [rng.randint(lo, hi) for _ in range(n)]
+
+
+def gen_mmesh(rng):
+    T = rng.choice([0, 1, 2, 2, 3, 3, 4, 5]) if rng.random() < 0.97 else 0
+    pat_i = rng.choice(["none", "none", "all", "all", "first", "notfirst", "firstNone"])
+    pat_f = rng.choice(["none", "none", "all", "first", "notfirst"])
+    ts = []
+    for t in range(T):
+        nv = rng.choice([0, 1, 2, 3, 4, 6])
+        ny, nz = (nv, nv) if rng.random() < 0.9 else (rng.randint(0, 4), rng.randint(0, 4))  # the offsets use len(x) only
+        nf = rng.choice([0, 1, 2, 3, 5])
+        hi = max(nv - 1, 0)
+        tr = {"x": _rint_list(rng, nv), "y": _rint_list(rng, ny), "z": _rint_list(rng, nz), "i": _rint_list(rng, nf, 0, hi),
+              "j": _rint_list(rng, nf, 0, hi), "k": _rint_list(rng, nf, 0, hi), "rest": []}
+        def has(pat):
+            return pat == "all" or (pat in ("first", "firstNone") and t == 0) or (pat == "notfirst" and t > 0)
+        tr["intensity"] = _rint_list(rng, nv) if has(pat_i) else None
+        tr["intensity_None"] = pat_i == "firstNone" and t == 0
+        tr["facecolor"] = _rint_list(rng, nf, 0, 5) if has(pat_f) else None
+        for key in ("type", "color", "opacity", "name"):
+            if rng.random() < 0.4:
+                tr["rest"].append((key, rng.randint(0, 9)))
+        ts.append(tr)
+    return ts
+
+
+def mmesh_line(ts):
+    def one(tr):
+        o = lambda l: "0" if l is None else f"1 {len(l)} " + " ".join(map(str, l))
+        it = None if tr["intensity_None"] else tr["intensity"]
+        return _norm(f"{len(tr['x'])} {' '.join(map(str, tr['x']))} {len(tr['y'])} {' '.join(map(str, tr['y']))} {len(tr['z'])} {' '.join(map(str, tr['z']))} "
+                     f"{len(tr['i'])} {' '.join(map(str, tr['i']))} {' '.join(map(str, tr['j']))} {' '.join(map(str, tr['k']))} {o(it)} {o(tr['facecolor'])} "
+                     f"{len(tr['rest'])} " + " ".join(f"{k} {v}" for k, v in tr["rest"]))
+    return _norm(f"disp mmesh {len(ts)} " + " ".join(one(t) for t in ts))
+
+
+def real_mmesh(ts):
+    import copy
+
+    from magpylib._src.display.traces_utility import merge_mesh3d
+    ds = []
+    for tr in ts:
+        d = {}
+        for k, v in tr["rest"][: len(tr["rest"]) // 2]:
+            d[k] = v
+        for c in "xyz":
+            d[c] = np.array(tr[c], dtype=float)
+        for c in "ijk":
+            d[c] = np.array(tr[c], dtype=int)
+        if tr["intensity"] is not None:
+            d["intensity"] = None if tr["intensity_None"] else np.array(tr["intensity"], dtype=float)
+        if tr["facecolor"] is not None:
+            d["facecolor"] = np.array(tr["facecolor"], dtype=int)
+        for k, v in tr["rest"][len(tr["rest"]) // 2:]:
+            d[k] = v
+        ds.append(d)
+    snap = copy.deepcopy(ds)
+    try:
+        m = merge_mesh3d(*ds)
+    except KeyError:
+        return "err KeyError", False
+    except IndexError:
+        return "err IndexError", False
+    changed = not all(list(a) == list(b) and all(np.array_equal(a[k], b[k]) if isinstance(a[k], np.ndarray) else a[k] == b[k] for k in a) for a, b in zip(snap, ds))
+    o = lambda k: "-" if m.get(k) is None else "[" + " ".join(map(str, _ints(m[k]))) + "]"
+    rest = [(k, v) for k, v in m.items() if k not in "xyzijk" and k not in ("intensity", "facecolor")]
+    # the model keeps the first trace's other entries in the order given on the line
+    order = {k: n for n, (k, _) in enumerate(ts[0]["rest"])}
+    rest.sort(key=lambda kv: order[kv[0]])
+    return _norm("ok " + " ; ".join(" ".join(map(str, _ints(m[c]))) for c in "xyzijk") + f" ; {o('intensity')} ; {o('facecolor')} ; " + " ".join(f"{k}={v}" for k, v in rest)), changed
+
+
+MODES = [None, "", "markers", "lines", "markers+lines", "markers+text+lines", "lines+markers", "text"]
+
+
+def gen_mscat(rng):
+    T = rng.choice([0, 1, 2, 2, 3, 3, 4, 5]) if rng.random() < 0.97 else 0
+    ts = []
+    for t in range(T):
+        m = rng.choice([0, 1, 2, 3, 5])
+        gaps = rng.random() < 0.25
+        cols = []
+        for _ in range(3):
+            cols.append([None if gaps and rng.random() < 0.25 else rng.randint(-9, 9) for _ in range(m)])
+        if gaps:  # a gap is a gap in all three arrays
+            cols[1] = [None if a is None else b if b is not None else 0 for a, b in zip(cols[0], cols[1])]
+            cols[2] = [None if a is None else b if b is not None else 0 for a, b in zip(cols[0], cols[2])]
+        mode = rng.choice(MODES)
+        absent = mode is None and rng.random() < 0.5
+        ts.append({"x": cols[0], "y": cols[1], "z": cols[2], "mode": mode, "mode_absent": absent,
+                   "rest": [(k, rng.randint(0, 9)) for k in ("type", "name", "line_color") if rng.random() < 0.4]})
+    return ts
+
+
+def mscat_line(ts):
+    o = lambda l: f"{len(l)} " + " ".join("N" if v is None else str(v) for v in l)
+    md = lambda m: "_" if m is None else ("E" if m == "" else m)
+    return _norm(f"disp mscat {len(ts)} " + " ".join(f"{o(t['x'])} {o(t['y'])} {o(t['z'])} {md(t['mode'])} {len(t['rest'])} " + " ".join(f"{k} {v}" for k, v in t["rest"]) for t in ts))
+
+
+def real_mscat(ts):
+    from magpylib._src.display.traces_utility import merge_scatter3d
+    ds = []
+    for tr in ts:
+        d = {k: v for k, v in tr["rest"]}
+        for c in "xyz":
+            d[c] = np.array(tr[c], dtype=object if any(v is None for v in tr[c]) else float)
+        if not tr["mode_absent"]:
+            d["mode"] = tr["mode"]
+        ds.append(d)
+    before = [dict(d) for d in ds]
+    try:
+        m = merge_scatter3d(*ds)
+    except IndexError:
+        return "err IndexError", False
+    mutated = bool(ds) and (list(before[0].items()) != list(ds[0].items())) and len(ds) != 1
+    if len(ds) == 1:
+        mutated = False
+    f = lambda a: " ".join("N" if v is None else str(int(v)) for v in np.asarray(a, dtype=object).reshape(-1).tolist())
+    pieces, cur = [], []
+    for v in np.asarray(m["x"], dtype=object).reshape(-1).tolist():
+        if v is None:
+            pieces.append(cur)
+            cur = []
+        else:
+            cur.append(int(v))
+    pieces.append(cur)
+    mode = m.get("mode")
+    md = "_" if mode is None else ("E" if mode == "" else mode)
+    rest = [(k, v) for k, v in m.items() if k not in ("x", "y", "z", "mode")]
+    order = {k: n for n, (k, _) in enumerate(ts[0]["rest"])}
+    rest.sort(key=lambda kv: order[kv[0]])
+    return _norm(f"ok {f(m['x'])} ; {f(m['y'])} ; {f(m['z'])} ; {md} ; " + " ".join(f"{k}={v}" for k, v in rest) + " ; " + " | ".join(" ".join(map(str, p)) for p in pieces)), mutated
+
+
+def _hex(s):
+    return s.encode("utf-8").hex() if s else "-"
+
+
+def real_autounit(x):
+    from magpylib._src.utility import _UNIT_PREFIX_REVERSED, get_unit_factor, unit_prefix
+    pref = unit_prefix(x, as_tuple=True)[2]
+    unit = f"{pref}m"
+    factor = get_unit_factor(unit, target_unit="m")
+    power = _UNIT_PREFIX_REVERSED[pref]
+    return unit, power, factor
+
+
+def _exp_of(factor, power):
+    """decimal exponent e with factor == 10^e to 1e-15 relative (None otherwise)"""
+    e = -power
+    ref = float(f"1e{e}")
+    return e if abs(float(factor) - ref) <= 1e-15 * ref else None
+
+
+def run_idx(ctx, n, stats):
+    import magpylib as magpy
+    from magpylib._src.display import traces_base as tb
+    from magpylib._src.display.traces_generic import make_path
+    from magpylib._src.display.traces_utility import get_scene_ranges, rescale_traces
+
+    rng = ctx.rng
+    st = {"ellidx": 0, "ellidx_errors": 0, "segidx": 0, "segidx_full": 0, "segidx_r1_zero": 0, "arrow": 0, "arrowv": 0, "mmesh": 0, "mmesh_errors": {},
+          "mmesh_inputs_modified": 0, "mscat": 0, "mscat_line_mode": 0, "mscat_first_input_modified": 0, "mscat_errors": 0, "path": 0, "autounit": 0,
+          "autounit_below_one": 0, "autounit_displayed_below_1": 0, "autounit_displayed_min": None, "autounit_displayed_max": None,
+          "autounit_factor_not_power_of_ten": 0, "ranges": 0, "idx_distinct": 0}
+    cases, lines = [], []
+
+    def add(c, line):
+        cases.append(c)
+        lines.append(line)
+
+    for N in range(0, 41):
+        add(("ellidx", N), f"disp ellidx {N}")
+    for vert in range(3, 61):
+        for p1, p2 in SEG_RANGES:
+            add(("segidx", vert, 0.0 if (vert + int(p1)) % 3 == 0 else 0.5, p1, p2), f"disp segidx {vert} {_bits(p1)} {_bits(p2)}")
+    for N in range(0, 31):
+        add(("arrow", N), f"disp arrow {N}")
+    for k in range(-27, 28):
+        for mnt in (0.999, 1.0, 1.001, 5.0):
+            x = float(f"{mnt}e{k}")
+            add(("autounit", x), f"disp autounit {_bits(x)}")
+    for _ in range(n):
+        r = rng.random()
+        if r < 0.10:
+            vert = rng.randint(0, 200)
+            p1 = rng.uniform(-720.0, 720.0)
+            p2 = p1 + rng.choice([360.0, 360.0, rng.uniform(0.0, 400.0), rng.uniform(359.9999999, 360.0000001)])
+            add(("segidx", vert, rng.choice([0.0, 0.3]), p1, p2), f"disp segidx {vert} {_bits(p1)} {_bits(p2)}")
+        elif r < 0.16:
+            N = rng.randint(1, 40)
+            d, h = _rfloat(rng), _rfloat(rng)
+            pivot = rng.choice(["tail", "tip", "middle"])
+            add(("arrowv", N, d, h, pivot), f"disp arrowv {N} {_bits(d)} {_bits(h)} {pivot}")
+        elif r < 0.42:
+            ts = gen_mmesh(rng)
+            add(("mmesh", ts), mmesh_line(ts))
+        elif r < 0.64:
+            ts = gen_mscat(rng)
+            add(("mscat", ts), mscat_line(ts))
+        elif r < 0.76:
+            m = rng.randint(2, 6)
+            ps = [[rng.choice([0.0, float(rng.randint(-5, 5)), rng.uniform(-10, 10), rng.gauss(0, 1e-3)]) for _ in range(3)] for _ in range(m)]
+            f = rng.choice([1.0, 1.0, 1000.0, 0.001, 100.0, 1e6, 1e-3, 1e9])
+            add(("path", ps, f), "disp path %d %s %s" % (m, " ".join(_bits(c) for p in ps for c in p), _bits(f)))
+        elif r < 0.88:
+            x = rng.uniform(0.1, 10.0) * 10.0 ** rng.randint(-30, 30)
+            if rng.random() < 0.3:
+                x = float(np.nextafter(10.0 ** rng.randint(-26, 26), rng.choice([0.0, np.inf])))
+            add(("autounit", x), f"disp autounit {_bits(x)}")
+        else:
+            T = rng.randint(1, 4)
+            scale = 10.0 ** rng.randint(-9, 6)
+            trs, pts = [], []
+            for _ in range(T):
+                m = rng.randint(1, 6)
+                P = [[rng.uniform(-1, 1) * scale + (rng.uniform(-3, 3) * scale if rng.random() < 0.5 else 0.0) for _ in range(3)] for _ in range(m)]
+                if rng.random() < 0.5 and m >= 3:
+                    nf = rng.randint(1, 3)
+                    F = [[rng.randrange(m) for _ in range(3)] for _ in range(nf)]
+                    trs.append({"type": "mesh3d", "x": [p[0] for p in P], "y": [p[1] for p in P], "z": [p[2] for p in P],
+                                "i": [f[0] for f in F], "j": [f[1] for f in F], "k": [f[2] for f in F]})
+                    pts += [P[v] for f in F for v in f]
+                else:
+                    trs.append({"type": "scatter3d", "x": [p[0] for p in P], "y": [p[1] for p in P], "z": [p[2] for p in P]})
+                    pts += P
+            if rng.random() < 0.1:
+                pts = [pts[0]] * 2
+                trs = [{"type": "scatter3d", "x": [pts[0][0]] * 2, "y": [pts[0][1]] * 2, "z": [pts[0][2]] * 2}]
+            zo = rng.choice([0.0, 0.0, 1.0, 0.5, 2.0])
+            add(("ranges", trs, zo), "disp ranges %d %s %s" % (len(pts), " ".join(_bits(c) for p in pts for c in p), _bits(zo)))
+    out = run_driver(lines)
+    seen = set()
+    samples = stats.setdefault("samples", [])
+    with warnings.catch_warnings():
+        warnings.simplefilter("ignore")
+        for c, line, mo in zip(cases, lines, out):
+            kind = c[0]
+            st[kind] += 1
+            why, real = None, "?"
+            try:
+                if kind == "ellidx":
+                    try:
+                        t = tb.make_Ellipsoid("generic", vert=c[1])["kwargs"]
+                        i, j, k = _ijk_real(t)
+                        real = _fmt(i, j, k)
+                        if max(i + j + k) >= len(t["x"]) or min(i + j + k) < 0:
+                            why = "index out of the vertex array"
+                    except ValueError:
+                        real = "err ValueError"
+                        st["ellidx_errors"] += 1
+                elif kind == "segidx":
+                    _, vert, r1, p1, p2 = c
+                    t = tb.make_CylinderSegment("generic", dimension=np.array([r1, 1.0, 1.0, p1, p2]), vert=vert)["kwargs"]
+                    i, j, k = _ijk_real(t)
+                    N = len(t["x"]) // 4
+                    full = len(i) == 8 * (N - 1)
+                    st["segidx_full"] += full
+                    st["segidx_r1_zero"] += r1 == 0.0
+                    real = f"ok {N} {int(full)} ; " + " ; ".join(" ".join(map(str, l)) for l in (i, j, k))
+                    if max(i + j + k) >= len(t["x"]) or len(i) not in (8 * (N - 1), 8 * (N - 1) + 4):
+                        why = "index out of the vertex array / unexpected face count"
+                elif kind == "arrow":
+                    try:
+                        t = tb.make_Arrow("generic", base=c[1])["kwargs"]
+                        real = _fmt(*_ijk_real(t)) if len(t["x"]) == 3 * c[1] + 3 else f"vertex count {len(t['x'])}"
+                    except IndexError:
+                        real = "err IndexError"
+                elif kind == "arrowv":
+                    _, N, d, h, pivot = c
+                    t = tb.make_Arrow("generic", base=N, diameter=d, height=h, pivot=pivot)["kwargs"]
+                    why = compare_trig("arrowv", [np.asarray(t[k], dtype=float).reshape(-1) for k in "xyz"], mo, stats)
+                    real = mo if why is None else "differs"
+                elif kind == "mmesh":
+                    real, changed = real_mmesh(c[1])
+                    st["mmesh_inputs_modified"] += changed
+                    if real.startswith("err"):
+                        st["mmesh_errors"][real] = st["mmesh_errors"].get(real, 0) + 1
+                    if changed:
+                        why = "merge_mesh3d modified an input trace"
+                elif kind == "mscat":
+                    real, mutated = real_mscat(c[1])
+                    st["mscat_first_input_modified"] += mutated
+                    st["mscat_errors"] += real.startswith("err")
+                    st["mscat_line_mode"] += len(c[1]) > 1 and "line" in (c[1][0]["mode"] or "")
+                    if mutated != (len(c[1]) > 1 and not c[1][0]["mode"]):
+                        why = "first input dict modified although its mode is non-empty (or not modified although empty)"
+                elif kind == "path":
+                    _, ps, f = c
+                    o = magpy.misc.Dipole(moment=(0, 0, 1), position=ps)
+                    tr = make_path(o)
+                    if not (np.array_equal(tr["x"], np.array(ps)[:, 0]) and tr["type"] == "scatter3d" and "lines" in tr["mode"]):
+                        why = "make_path does not return the path positions as a line trace"
+                    (tr2,) = rescale_traces([tr], factors={(1, 1): f})
+                    real = "ok " + " ; ".join(" ".join(_bits(v) for v in np.asarray(tr2[k], dtype=float)) for k in "xyz")
+                elif kind == "autounit":
+                    x = c[1]
+                    unit, power, factor = real_autounit(x)
+                    e = _exp_of(factor, power)
+                    st["autounit_factor_not_power_of_ten"] += e is None
+                    real = f"ok {_hex(unit)} {power} {e} {mo.split()[-1] if mo.startswith('ok') else '?'}"
+                    shown = x * factor
+                    st["autounit_below_one"] += x < 1
+                    if 1e-24 <= x < 1e27:
+                        st["autounit_displayed_below_1"] += shown < 1
+                        st["autounit_displayed_min"] = shown if st["autounit_displayed_min"] is None else min(shown, st["autounit_displayed_min"])
+                        st["autounit_displayed_max"] = shown if st["autounit_displayed_max"] is None else max(shown, st["autounit_displayed_max"])
+                else:
+                    _, trs, zo = c
+                    rr = get_scene_ranges(*trs, zoom=zo)[(1, 1)]
+                    rmax = float(np.amax(np.abs(rr)))
+                    unit, power, factor = real_autounit(rmax)
+                    real = "ok " + " ".join(_bits(v) for v in np.asarray(rr).reshape(-1)) + f" ; {_bits(rmax)} ; {_hex(unit)} {power} {_exp_of(factor, power)}"
+            except Exception as e:
+                real = f"harness: {type(e).__name__}: {e}"
+            if why is None and kind != "arrowv" and _norm(real) != _norm(mo):
+                why = "model and real differ"
+            seen.add((kind, _norm(real)[:300]))
+            if kind not in [s_["kind"] for s_ in samples] and len(samples) < 24:
+                samples.append({"kind": kind, "line": line[:200], "model": mo[:200], "real": real[:200]})
+            if why is not None:
+                stats["disagreements"] += 1
+                if stats["disagreements"] <= 3:
+                    ctx.broken.append({"kind": "correspondence", "name": "disp-idx", "detail": {"line": line[:400], "why": why, "model": mo[:400], "real": real[:400]}})
+    st["idx_distinct"] = len(seen)
+    st["idx_cases"] = len(cases)
+    stats.update(st)
+    stats["distinct"] += len(seen)
+    stats["cases"] += len(cases)
+
+
 def run_stream(ctx, n):
     import magpylib as magpy
     from magpylib._src.display import traces_base as tb
@@ -570,4 +928,6 @@ def run_stream(ctx, n):
     stats["samples"] = samples
     # place_and_orient_model3d rows (the `place` of Props/C19 place_is_pose / place_inverse / place_preserves_extent)
     run_place(ctx, max(40, n // 2), stats)
+    # index arrays of Ellipsoid / CylinderSegment / Arrow, trace merging, path trace, auto unit (Model/DisplayIdx.lean)
+    run_idx(ctx, max(120, n // 2), stats)
     return stats
